@@ -3036,6 +3036,12 @@ func (pc *PeerConnection) generateMatchedSDP(
 
 		sdpSemantics := pc.configuration.SDPSemantics
 
+		// when answering, the section's direction must be a legal response to the offered one
+		offeredDirection := RTPTransceiverDirectionUnknown
+		if !includeUnmatched {
+			offeredDirection = direction
+		}
+
 		switch {
 		case sdpSemantics == SDPSemanticsPlanB || sdpSemantics == SDPSemanticsUnifiedPlanWithFallback && detectedPlanB:
 			if !detectedPlanB {
@@ -3063,7 +3069,9 @@ func (pc *PeerConnection) generateMatchedSDP(
 				}
 				mediaTransceivers = append(mediaTransceivers, transceiver)
 			}
-			mediaSections = append(mediaSections, mediaSection{id: midValue, transceivers: mediaTransceivers})
+			mediaSections = append(mediaSections, mediaSection{
+				id: midValue, transceivers: mediaTransceivers, offeredDirection: offeredDirection,
+			})
 		case sdpSemantics == SDPSemanticsUnifiedPlan || sdpSemantics == SDPSemanticsUnifiedPlanWithFallback:
 			if detectedPlanB {
 				return nil, &rtcerr.TypeError{
@@ -3085,7 +3093,10 @@ func (pc *PeerConnection) generateMatchedSDP(
 			extensions, _ := rtpExtensionsFromMediaDescription(media)
 			mediaSections = append(
 				mediaSections,
-				mediaSection{id: midValue, transceivers: mediaTransceivers, matchExtensions: extensions, rids: getRids(media)},
+				mediaSection{
+					id: midValue, transceivers: mediaTransceivers, matchExtensions: extensions, rids: getRids(media),
+					offeredDirection: offeredDirection,
+				},
 			)
 		}
 	}
